@@ -345,8 +345,12 @@ class ExpressionParser:
             # collect backend-specific function override for this operation, if any
             label = expr.func.__name__
             try:
-                v_tmp = self.cg.get_var(func_args[0].name)
-                op = self.cg.get_op(label, shape=v_tmp.shape, dtype=v_tmp.dtype)
+                if func_args:
+                    v_tmp = self.cg.get_var(func_args[0].name)
+                    op = self.cg.get_op(label, shape=v_tmp.shape, dtype=v_tmp.dtype)
+                else:
+                    # all arguments are numeric literals, e.g. maxi(2, 3) or sigmoid(0.5)
+                    op = self.cg.get_op(label, shape=self._def_shape, dtype='float')
                 backend_funcs = {label: op['func']}
             except (KeyError, IndexError):
                 backend_funcs = {}
